@@ -370,6 +370,151 @@ func (m *lexModel) ltAt(ld ssa.Value, unguarded map[*ssa.BasicBlock]bool) bool {
 	return !unguarded[b]
 }
 
+// A scan cursor is a local index q = phi[init, q+1] of a loop that runs over the input beside the
+// position cell (the shape left by a "skip while" helper): init is a content of pos, or such a
+// content known < len plus one, and the step is taken only under q < len. Then q <= len always.
+func (m *lexModel) cursorLT(q ssa.Value, at *ssa.BasicBlock) bool {
+	for _, cd := range ir.DominatingConds(at) {
+		bo, ok := cd.V.(*ssa.BinOp)
+		if !ok {
+			continue
+		}
+		op := bo.Op
+		switch {
+		case bo.X == q && m.eof[bo.Y]:
+		case bo.Y == q && m.eof[bo.X]:
+			switch op {
+			case token.LSS:
+				op = token.GTR
+			case token.GTR:
+				op = token.LSS
+			case token.LEQ:
+				op = token.GEQ
+			case token.GEQ:
+				op = token.LEQ
+			}
+		default:
+			continue
+		}
+		if (op == token.LSS && cd.Want) || (op == token.GEQ && !cd.Want) {
+			return true
+		}
+	}
+	return false
+}
+
+// boundedIndex: v <= len(usage) by construction.
+func (m *lexModel) boundedIndex(v ssa.Value, unguarded map[*ssa.BasicBlock]bool, seen map[ssa.Value]bool) bool {
+	if seen[v] {
+		return true // inductive hypothesis round a phi cycle
+	}
+	if m.isPosLoad(v) {
+		return true
+	}
+	switch x := v.(type) {
+	case *ssa.BinOp:
+		one, isC := ir.ConstInt(x.Y)
+		if x.Op != token.ADD || !isC || one != 1 {
+			return false
+		}
+		if m.isPosLoad(x.X) {
+			return m.ltAt(x.X, unguarded)
+		}
+		if _, isPhi := x.X.(*ssa.Phi); isPhi {
+			seen[v] = true
+			return m.cursorLT(x.X, x.Block()) && m.boundedIndex(x.X, unguarded, seen)
+		}
+	case *ssa.Phi:
+		seen[v] = true
+		for _, e := range x.Edges {
+			if !m.boundedIndex(e, unguarded, seen) {
+				return false
+			}
+		}
+		return true
+	}
+	return false
+}
+
+// cursorInitLoads collects the loads of pos a cursor value starts from.
+func (m *lexModel) cursorInitLoads(v ssa.Value, seen map[ssa.Value]bool, out *[]*ssa.UnOp) {
+	if seen[v] {
+		return
+	}
+	seen[v] = true
+	switch x := v.(type) {
+	case *ssa.UnOp:
+		if m.isPosLoad(x) {
+			*out = append(*out, x)
+		}
+	case *ssa.BinOp:
+		m.cursorInitLoads(x.X, seen, out)
+	case *ssa.Phi:
+		for _, e := range x.Edges {
+			m.cursorInitLoads(e, seen, out)
+		}
+	}
+}
+
+// cursorStoreOK: `*pos = q` keeps 0 <= old pos <= pos <= len: q is a bounded index that starts from the
+// content of pos and pos is not written between that load and this store.
+func (m *lexModel) cursorStoreOK(st *ssa.Store, unguarded map[*ssa.BasicBlock]bool) (bool, string) {
+	if _, isPhi := st.Val.(*ssa.Phi); !isPhi {
+		return false, "the position is not updated as pos+1"
+	}
+	if !m.boundedIndex(st.Val, unguarded, map[ssa.Value]bool{}) {
+		return false, "the position is set to a scan index that is not bounded by len (init from pos, +1 only under index < len)"
+	}
+	var loads []*ssa.UnOp
+	m.cursorInitLoads(st.Val, map[ssa.Value]bool{}, &loads)
+	if len(loads) == 0 {
+		return false, "the scan index does not start from the position"
+	}
+	for _, ld := range loads {
+		lb, sb := ld.Block(), st.Block()
+		if !lb.Dominates(sb) || lb == sb {
+			return false, "the scan index starts from a position read that does not precede the store on every path"
+		}
+		if m.storeIn(lb, ir.IndexIn(ld), len(lb.Instrs)) >= 0 || m.storeIn(sb, 0, ir.IndexIn(st)) >= 0 {
+			return false, "the position is written between the start of the scan index and this store (it could move backwards)"
+		}
+		r := m.g.reach(lb.Succs, map[*ssa.BasicBlock]bool{lb: true, sb: true}, nil)
+		for b := range r {
+			if b != sb && b != lb && m.kill(b) {
+				return false, "the position is written between the start of the scan index and this store (it could move backwards)"
+			}
+		}
+	}
+	return true, ""
+}
+
+// cursorLoop: the loop headed by h advances a bounded scan index on every back edge.
+func (m *lexModel) cursorLoop(h *ssa.BasicBlock, unguarded map[*ssa.BasicBlock]bool) bool {
+	for _, in := range h.Instrs {
+		phi, ok := in.(*ssa.Phi)
+		if !ok {
+			break
+		}
+		if !m.boundedIndex(phi, unguarded, map[ssa.Value]bool{}) {
+			continue
+		}
+		all := true
+		for i, p := range h.Preds {
+			if !h.Dominates(p) {
+				continue
+			}
+			bo, isBo := phi.Edges[i].(*ssa.BinOp)
+			if !isBo || bo.Op != token.ADD || bo.X != ssa.Value(phi) {
+				all = false
+			}
+		}
+		if all {
+			return true
+		}
+	}
+	return false
+}
+
 func lex1(c *Ctx) {
 	m, why := c.lexModel()
 	if m == nil {
@@ -388,7 +533,12 @@ func lex1(c *Ctx) {
 		}
 		bo, ok := st.Val.(*ssa.BinOp)
 		if !ok || bo.Op != token.ADD || !m.isPosLoad(bo.X) {
-			c.Bad(key, st.Pos(), "the position is not updated as pos+1")
+			good, whyNot := m.cursorStoreOK(st, unguarded)
+			if good {
+				c.OK(key, st.Pos(), "set to a scan index that starts at pos and is advanced by 1 only while < len: old pos <= pos <= len")
+			} else {
+				c.Bad(key, st.Pos(), "%s", whyNot)
+			}
 			continue
 		}
 		one, isC := ir.ConstInt(bo.Y)
@@ -419,6 +569,10 @@ func lex1(c *Ctx) {
 			return
 		}
 		if !m.isPosLoad(lk.Index) {
+			if _, isPhi := lk.Index.(*ssa.Phi); isPhi && m.boundedIndex(lk.Index, unguarded, map[ssa.Value]bool{}) {
+				c.Check(m.cursorLT(lk.Index, lk.Block()), key, lk.Pos(), "read at a scan index under a dominating index < len test", "this byte read at a scan index is not dominated by an index < len test (index out of range)")
+				return
+			}
 			c.Undecided(key, lk.Pos(), "the index is not the scanner position")
 			return
 		}
@@ -510,6 +664,10 @@ func lex2(c *Ctx) {
 			if r[h] {
 				stuck = true
 			}
+		}
+		if stuck && m.cursorLoop(h, m.unguardedEntry()) {
+			c.OK(key, firstPos(h), "every way round this loop advances a scan index that is bounded by len")
+			continue
 		}
 		c.Check(!stuck, key, firstPos(h), "every way round this loop advances the position", "this loop can go round without advancing the position (the scanner would hang)")
 	}
